@@ -124,7 +124,9 @@ func composeBuilderForType(schemas ast.Schemas, builders ast.Builders, config Co
 		Package:     composableBuilders[0].Package,
 		For:         sourceBuilder.For,
 		Name:        sourceBuilder.For.Name,
-		Constructor: sourceBuilder.Constructor,
+		// every composed builder appends its own constants to the constructor:
+		// they can not share the slices of the source builder's.
+		Constructor: sourceBuilder.Constructor.DeepCopy(),
 		Properties:  sourceBuilder.Properties,
 	}
 	if config.ComposedBuilderName != "" {
